@@ -1650,6 +1650,67 @@ func c11R7(c *Ctx) {
 		})
 	}
 	c.minCount(rule, "panicking SDK scope operations on the file's input scope", n, 3)
+	// the other scope that comes from the file: a declared output schema. It is only USED when an output is produced
+	// (handleOutput -> Unserialize -> RootObject inside the SDK), so it has to be checked during preparation: a value taken
+	// from Workflow.OutputSchema is handed to a recovering function that links it and looks its root up
+	prep := c.Fn("(*workflow.executor).Prepare")
+	if prep != nil {
+		linked := false
+		c.eachInstrLogical(prep, func(r instrRef) {
+			call, ok := r.I.(*ssa.Call)
+			if !ok {
+				return
+			}
+			callee := call.Common().StaticCallee()
+			if callee == nil || !isRepoFn(callee) || !recoverGuarded(callee) {
+				return
+			}
+			looksUpRoot := false
+			eachInstr(callee, func(r2 instrRef) {
+				if cc := callCommon(r2.I); cc != nil && cc.IsInvoke() && cc.Method.Name() == "RootObject" {
+					looksUpRoot = true
+				}
+			})
+			if !looksUpRoot {
+				return
+			}
+			var fromDeclared func(v ssa.Value, d int) bool
+			fromDeclared = func(v ssa.Value, d int) bool {
+				if d > 4 {
+					return false
+				}
+				return derivesFrom(v, func(w ssa.Value) bool {
+					if f := loadedField(w); f != nil && fieldName(f) == "OutputSchema" && strings.HasSuffix(namedTypeName(baseOfFieldLoad(w)), "Workflow") {
+						return true
+					}
+					// an accessor (x.Schema()): what its receiver derives from
+					if c2, ok := w.(*ssa.Call); ok {
+						if recv := callRecv(c2.Common()); recv != nil {
+							return fromDeclared(recv, d+1)
+						}
+					}
+					return false
+				})
+			}
+			for _, a := range call.Call.Args {
+				if fromDeclared(a, 0) {
+					linked = true
+				}
+			}
+		})
+		c.verdict(linked, rule, "declared-output-schema-checked", c.pos(prep.Pos()), "a declared output schema's scope is linked and its root looked up under a recover during preparation",
+			"the scope of a declared `outputSchema` is never checked during preparation: a scope whose root object is missing is accepted, and the run panics (RootObject inside the SDK) when that output is produced")
+	}
+}
+
+func namedTypeName(v ssa.Value) string {
+	if v == nil {
+		return ""
+	}
+	if tn := namedOf(v.Type()); tn != nil {
+		return tn.Name()
+	}
+	return ""
 }
 
 func c11R4(c *Ctx) {
@@ -1708,6 +1769,45 @@ func (c *Ctx) constIndexRule(rule string, fns []*ssa.Function, table map[string]
 				if x.High != nil {
 					k, ok := constInt(x.High)
 					if !ok {
+						// a bound chosen among constants (`end := 5; if len(s) < end { end = 4 }`): each choice needs its own
+						// length guarantee on the path that makes it
+						if phi, isPhi := x.High.(*ssa.Phi); isPhi {
+							allConst := len(phi.Edges) > 0
+							for _, e := range phi.Edges {
+								if _, isC := constInt(e); !isC {
+									allConst = false
+								}
+							}
+							if !allConst {
+								return
+							}
+							if _, fresh := x.X.(*ssa.MakeSlice); fresh {
+								return
+							}
+							n++
+							origin := valueOrigin(x.X)
+							what := "slice with a bound chosen among constants"
+							tk := c.fnName(fn) + "|" + what + " of " + origin
+							cnt[tk]++
+							key := "const-index@" + c.fnName(fn) + "#" + sanitize(what+" of "+origin)
+							if cnt[tk] > 1 {
+								key += fmt.Sprintf("#%d", cnt[tk])
+							}
+							okAll := true
+							worst := int64(0)
+							for i, e := range phi.Edges {
+								kk, _ := constInt(e)
+								pred := phi.Block().Preds[i]
+								if len(pred.Instrs) == 0 || !lenImplies(pred.Instrs[len(pred.Instrs)-1], x.X, kk) {
+									okAll = false
+									if kk > worst {
+										worst = kk
+									}
+								}
+							}
+							c.verdict(okAll, rule, key, c.instrPos(r.I), "every choice of the bound is made on a path that guarantees that many elements",
+								fmt.Sprintf("%s of %s: the bound %d is chosen on a path without a length test that guarantees %d elements: %s", what, origin, worst, worst, consequence))
+						}
 						return
 					}
 					hi = k
